@@ -426,6 +426,23 @@ func c04Property(t *rapid.T, st *Stats) {
 			rn := rapid.SampledFrom(c04Repos).Draw(t, "repo")
 			mr := e.repo(rn)
 			q := e.c04Build(t, rn)
+			// the same bytes again: a manifest acknowledged earlier, re-pushed under another reference after some of
+			// what it references may have been deleted
+			if ms := sortedKeys(mr.mans); len(ms) > 0 && rapid.IntRange(0, 4).Draw(t, "rePut") == 0 {
+				d := rapid.SampledFrom(ms).Draw(t, "rePutOf")
+				q.raw, q.ct, q.qdig = mr.mans[d].raw, mr.mans[d].mt, ""
+				q.ref = rapid.SampledFrom(c04Tags).Draw(t, "rePutTag")
+				q.desc = append(q.desc, "rePut")
+			}
+			// the body may already sit in the repository as an ordinary blob (uploaded through the blob API)
+			if json.Valid(q.raw) && rapid.IntRange(0, 5).Draw(t, "bodyAsBlob") == 0 {
+				bd := dig("sha256", q.raw)
+				if r := e.do("POST", "/v2/"+rn+"/blobs/uploads/?digest="+bd, q.raw, nil); r.code == 201 {
+					mr.blobs[bd] = q.raw
+					e.universe[bd] = true
+					q.desc = append(q.desc, "bodyAsBlob")
+				}
+			}
 			v := c04Predict(q.raw, q.ct, q.ref, q.qdig, mr.blobs)
 			e.universe[dig("sha256", q.raw)] = true
 			if c04DigRE.MatchString(q.ref) {
